@@ -275,6 +275,10 @@ def run_async(case, max_steps=400):
                 for gap, e, v, nmd in items:
                     if gap > 0:
                         await asyncio.sleep(gap)
+                    elif gap < 0:
+                        # -k: the same virtual instant, but k turns of the event loop later
+                        for _ in range(int(-gap)):
+                            await asyncio.sleep(0)
                     i = counter['i']
                     counter['i'] += 1
                     x = tuple(v) if isinstance(v, list) else v
